@@ -128,6 +128,9 @@ MUTANTS = {
                 "    ppath, opath, start, end, padded = path_padding(inpath, start, target_object)\n"},
     ],
     "C11": [
+        {"name": "copy_rollback_only_direct_children", "kind": "sub", "file": BG,
+         "old": "            stack.extend(children or [])\n",
+         "new": "            stack.extend([])\n"},
         {"name": "iteration_in_typed_order", "kind": "sub", "file": CO,
          "old": "        yield from self._children\n",
          "new": "        yield from self._sources + self._sensors + self._collections\n"},
@@ -175,7 +178,10 @@ MUTANTS = {
          "new": "        tree_kwargs = (\"children\", \"sources\", \"sensors\", \"collections\")\n"
                 "        for k, v in kwargs.items():\n            if k in tree_kwargs:\n                setattr(obj_copy, k, v)\n"
                 "        style_kwargs = {}\n"},
-        {"name": "revert_fix_copy_tree_rollback", "kind": "revert", "commit": "a68f46d"},
+        # a68f46d + its follow-up (roll-back of a rejected copy()), as substitutions
+        {"name": "copy_rollback_disabled", "kind": "sub", "file": BG,
+         "old": "            except Exception:\n                _set_tree_links(links)\n                raise\n",
+         "new": "            except Exception:\n                raise\n"},
         {"name": "revert_fix_empty_label", "kind": "revert", "commit": "0197573"},
         # 3c55826 (parent assigned last) cannot be reverse-applied any more since 0c17cf5 rewrote the same lines
         {"name": "copy_assigns_parent_first", "kind": "sub", "file": BG,
